@@ -17,6 +17,7 @@
    (C13_none_cells_refuted: function-level / pre-fix pipeline behaviour). *)
 From Coq Require Import List ZArith QArith Permutation.
 From Outrank Require Import Stats.Quality Stats.QualityProofs.
+From Outrank Require Sketch.HLL Sketch.Bounded.
 Import ListNotations.
 Local Open Scope Z_scope.
 
@@ -62,8 +63,30 @@ Theorem C13_card_exact : forall (hash : val -> N) cap j (bs : list batch), 0 <= 
   card hash cap j bs = Some (distinct_truthy col).
 Proof. exact card_exact. Qed.
 
-(* fewer distinct values (empty string included) than the bound: every stored count is exact and
-   bucket x of the histogram is #{v | count v > x}, for any list of bucket edges *)
+(* HEADLINE for the repetition histogram, ANY bound and ANY column: the counter holds the exact counts of the prefix of
+   the concatenated column up to and including the arrival of the bound-th distinct value ([eff_prefix]; afterwards every
+   add is dropped, also for stored keys), and the histogram is the exact histogram of that prefix — a function of the
+   concatenation, hence independent of the split (C13_split_indep) *)
+Theorem C13_hist_general : forall edges bound j (bs : list batch),
+  hist edges bound j bs = hist_general edges bound (column j (concat bs)).
+Proof. exact hist_is_general. Qed.
+
+Theorem C13_counter_general : forall bound j (bs : list batch) v,
+  get val_eq_dec (counter bound j bs) v = cnt val_eq_dec (eff_prefix bound [] (column j (concat bs))) v.
+Proof. exact counter_get_general. Qed.
+
+(* what the counted prefix is: a prefix; if something is left out then bound distinct values are stored; every counted
+   cell arrived while fewer than bound distinct values were stored; the whole column when distinct < bound *)
+Theorem C13_counted_prefix : forall bound col,
+  let pre := eff_prefix bound [] col in
+  (exists rest, col = pre ++ rest /\
+                (rest <> [] -> bound <= Z.of_nat (length (nodup val_eq_dec pre)))) /\
+  (forall q x t, pre = q ++ x :: t -> Z.of_nat (length (nodup val_eq_dec q)) < bound) /\
+  (Z.of_nat (length (nodup val_eq_dec col)) < bound -> pre = col).
+Proof. exact eff_prefix_spec. Qed.
+
+(* corollary below the bound (empty string / markers included among the distinct values): every stored count is exact
+   and bucket x is #{v | count v > x} over ALL consumed rows *)
 Theorem C13_counter_exact : forall bound j (bs : list batch) v,
   let col := column j (concat bs) in
   Z.of_nat (length (nodup val_eq_dec col)) < bound ->
@@ -75,6 +98,52 @@ Theorem C13_hist_spec : forall edges bound j (bs : list batch),
   Z.of_nat (length (nodup val_eq_dec col)) < bound ->
   hist edges bound j bs = hist_spec edges col.
 Proof. exact hist_is_spec. Qed.
+
+(* PARTIAL: the property's "equals an exact recomputation over the consumed rows" for the histogram is proved only under
+   distinct < bound (default bound 30000).  Full statement:  forall edges bound j bs, hist edges bound j bs = hist_spec
+   edges (column j (concat bs)).  It is false beyond the bound (C13_hist_all_rows_refuted: counts freeze); what holds for
+   every column is C13_hist_general. *)
+Theorem C13_hist_all_rows_partial : forall edges bound j (bs : list batch),
+  Z.of_nat (length (nodup val_eq_dec (column j (concat bs)))) < bound ->
+  hist edges bound j bs = hist_spec edges (column j (concat bs)).
+Proof. exact hist_is_spec. Qed.
+
+Theorem C13_hist_all_rows_refuted :
+  exists (bound : Z) (bs : list batch),
+    hist [0; 1] bound 0 bs = [2; 0] /\ hist_spec [0; 1] (column 0 (concat bs)) = [3; 1] /\
+    hist_general [0; 1] bound (column 0 (concat bs)) = [2; 0] /\
+    eff_prefix bound [] (column 0 (concat bs)) = [V [97%N]; V [98%N]].
+Proof. exact hist_all_rows_refuted. Qed.
+
+(* BRIDGES to the models of the real sketch (C14, Sketch/HLL.v) and of the real counter (C15, Sketch/Bounded.v).
+   The warm-phase sketch of this file is HLL.add with the registers forgotten; [card] is the exact-phase view of the
+   length of the real sketch; the counter of this file, keys renamed by an injective id assignment, is C15's crun *)
+Theorem C13_sketch_bridge : forall p W width h2 t v,
+  abs_sketch (HLL.add p W width h2 t v) = sk_add (Z.of_nat W) (abs_sketch t) v.
+Proof. exact abs_add. Qed.
+
+Theorem C13_card_bridge : forall p W width h2 (hash : val -> N) j (bs : list batch),
+  card hash (Z.of_nat W) j bs = len_view (card_hll p W width h2 hash j bs).
+Proof. exact card_bridge. Qed.
+
+Theorem C13_counter_bridge : forall (enc : val -> N) univ,
+  (forall a b, In a univ -> In b univ -> enc a = enc b -> a = b) ->
+  forall bound j (bs : list batch), incl (column j (concat bs)) univ ->
+  mapk enc (counter bound j bs) = Bounded.crun bound (map enc (column j (concat bs))).
+Proof. exact counter_bridge. Qed.
+
+(* cardinality in BOTH phases (after the conversion too): whatever each batch inserts — its set of truthy values in any
+   order, or with repetitions — the union over the batches is the set of the concatenated column, so by C14's len_set
+   the length of the real sketch is that of the sketch fed once with the whole column; hence split independent *)
+Theorem C13_card_any_insertion_both_phases : forall p W width h2 (hash : val -> N) (inss : list (list N)) (cols : list (list val)),
+  Forall2 (fun ins col => forall h, In h ins <-> In h (map hash (filter truthy col))) inss cols ->
+  HLL.len (HLL.run p W width h2 (concat inss)) = card_hll_spec p W width h2 hash (concat cols).
+Proof. exact card_hll_any_order. Qed.
+
+Theorem C13_card_split_indep_cold : forall p W width h2 (hash : val -> N) j (s1 s2 : list batch),
+  concat s1 = concat s2 ->
+  card_hll p W width h2 hash j s1 = card_hll p W width h2 hash j s2.
+Proof. exact card_hll_split_indep. Qed.
 
 (* the report is exactly {((col, v), total) | 1 <= total <= thr}, for every threshold, with
    [total] counted over all consumed rows; a pair is retired exactly when its total exceeds thr *)
@@ -199,3 +268,13 @@ Print Assumptions C13_frames_fill.
 Print Assumptions C13_split_indep_parsed.
 Print Assumptions C13_parsed_card.
 Print Assumptions C13_none_cells_refuted.
+Print Assumptions C13_hist_general.
+Print Assumptions C13_counter_general.
+Print Assumptions C13_counted_prefix.
+Print Assumptions C13_hist_all_rows_partial.
+Print Assumptions C13_hist_all_rows_refuted.
+Print Assumptions C13_sketch_bridge.
+Print Assumptions C13_card_bridge.
+Print Assumptions C13_counter_bridge.
+Print Assumptions C13_card_any_insertion_both_phases.
+Print Assumptions C13_card_split_indep_cold.
